@@ -421,8 +421,43 @@ def run(chk):
 
     run_X7(chk)
     run_X9(chk)
+    run_X10(chk)
     from . import e10
     e10.run_U(chk, ("yastn.krylov", "yastn.tensor._krylov"), floor1=5, floor2=1)
+
+
+def run_X10(chk):
+    """X10: sibling agreement on what expand_krylov_space returns.  With `happy` the space is invariant and *all* returned vectors are
+    genuine basis vectors; otherwise the last one is the next, not yet orthogonalised-against, candidate.  Each solver sizes its
+    projected problem accordingly: m = len(basis) if happy else len(basis) - 1 -- decided per value of `happy` with reaching
+    definitions on the specialised CFG (if/else, conditional expression or two statements alike)."""
+    from ..core.knob import KnobEval
+    prog = chk.prog
+    chk.rule("X10", "the projected problem has dimension len(basis) on happy breakdown and len(basis) - 1 otherwise (all three solvers)", floor=4)
+    for name in ("expmv", "eigs", "lin_solver"):
+        f = prog.func(KRY, name)
+        fn = f.node
+        calls = [n for n in ast.walk(fn) if isinstance(n, ast.Assign) and isinstance(n.value, ast.Call) and A.callee_attr(n.value) == "expand_krylov_space"
+                 and isinstance(n.targets[0], ast.Tuple) and len(n.targets[0].elts) == 3]
+        chk.require(calls, f"{name}: `basis, H, happy = ..expand_krylov_space(..)` not found")
+        basis, _h, hp = [A.text(e) for e in calls[0].targets[0].elts]
+        # the dimension handed to square_matrix_from_dict(H, <m> (+1), ..)
+        sq = [c for c in ast.walk(fn) if isinstance(c, ast.Call) and A.callee_attr(c) == "square_matrix_from_dict" and len(c.args) >= 2]
+        chk.require(sq, f"{name}: square_matrix_from_dict(H, m, ..) not found")
+        dim = sq[0].args[1]
+        mnames = [x.id for x in ast.walk(dim) if isinstance(x, ast.Name)]
+        chk.require(len(mnames) == 1, f"{name}: dimension argument `{A.text(dim)}` is not built from one local")
+        mname = mnames[0]
+        par = A.enclosing_map(fn)
+        at = A.stmt_of(sq[0], par)
+        for val, want in ((True, f"len({basis})"), (False, f"len({basis})-1")):
+            ke = KnobEval(fn, {hp: val})
+            vals = [v for v in ke.values(mname, at)]
+            got = {_sub_text(v) if v is not None else None for v in vals}
+            chk.verdict("X10", (f, at), f"{name}: {mname} = {sorted(str(g) for g in got)} when {hp} is {val}", True if got == {want} else False,
+                        f"{name}(): with {hp}={val} the dimension of the projected problem is {sorted(str(g) for g in got)}, the basis returned by "
+                        f"expand_krylov_space has {want} genuine vectors in that case: on a happy breakdown the last basis vector is dropped (the "
+                        f"solution is wrong although the space spans the whole sector) or, without breakdown, the un-orthogonalised candidate is used")
 
 
 def run_X9(chk):
